@@ -275,7 +275,13 @@ func (d *DNSFilter) handleFilteringSetRules(w http.ResponseWriter, r *http.Reque
 		return
 	}
 
-	d.conf.UserRules = req.Rules
+	func() {
+		d.conf.filtersMu.Lock()
+		defer d.conf.filtersMu.Unlock()
+
+		d.conf.UserRules = req.Rules
+	}()
+
 	d.conf.ConfigModified()
 	d.EnableFilters(true)
 }
